@@ -419,3 +419,89 @@ theorem read_render (d : Dialect) (hd : WFD d) (recs : List Rec)
   simp [finish]
 
 end Proofs.Csv
+
+namespace Proofs.Csv
+open Model.Csv
+
+/-! the default line terminator: text mode turns the writer's `\r\n` back into `\n` -/
+
+theorem universal_cons_ne (c : Char) (l : List Char) (hc : c ≠ '\r') : universal (c :: l) = c :: universal l :=
+  universal.eq_4 c l (fun _ h _ => hc h) hc
+
+theorem universal_append (xs ys : List Char) (h : '\r' ∉ xs) : universal (xs ++ ys) = xs ++ universal ys := by
+  induction xs with
+  | nil => rfl
+  | cons c cs ih =>
+    have hc : c ≠ '\r' := fun e => h (e ▸ List.mem_cons_self ..)
+    have hcs : '\r' ∉ cs := fun m => h (List.mem_cons_of_mem _ m)
+    simp only [List.cons_append, universal_cons_ne c _ hc, ih hcs]
+
+theorem universal_crlf (ys : List Char) : universal ('\r' :: '\n' :: ys) = '\n' :: universal ys := by
+  simp [universal]
+
+theorem needsQuoteCRLF_eq (d : Dialect) (c : Cell) (hr : '\r' ∉ c) : needsQuoteCRLF d c = needsQuote d c := by
+  unfold needsQuoteCRLF needsQuote
+  induction c with
+  | nil => rfl
+  | cons x xs ih =>
+    have hx : x ≠ '\r' := fun e => hr (e ▸ List.mem_cons_self ..)
+    have hxs : '\r' ∉ xs := fun m => hr (List.mem_cons_of_mem _ m)
+    simp only [List.any_cons, ih hxs]
+    have : (x == '\r') = false := by simpa using hx
+    simp [this]
+
+theorem encCellCRLF_eq (d : Dialect) (c : Cell) (hr : '\r' ∉ c) : encCellCRLF d c = encCell d c := by
+  unfold encCellCRLF encCell
+  rw [needsQuoteCRLF_eq d c hr]
+
+theorem encCell_no_cr (d : Dialect) (hd : WFD d) (c : Cell) (hr : '\r' ∉ c) : '\r' ∉ encCell d c := by
+  intro hm
+  rcases encCell_mem d c _ hm with h | h
+  · exact hr h
+  · exact hd.qr h.symm
+
+theorem universal_cellsCRLF (d : Dialect) (hd : WFD d) (cs : List Cell) (h : ∀ c ∈ cs, '\r' ∉ c) (rest : List Char) :
+    universal (encCellsCRLF d cs ++ rest) = encCells d cs ++ universal rest := by
+  induction cs with
+  | nil => simp [encCellsCRLF, encCells, universal_crlf]
+  | cons c tl ih =>
+    have hc := h c (List.mem_cons_self ..)
+    cases tl with
+    | nil =>
+      simp only [encCellsCRLF, encCells, encCellCRLF_eq d c hc, List.append_assoc]
+      rw [universal_append _ _ (encCell_no_cr d hd c hc)]
+      simp [universal_crlf]
+    | cons c2 t2 =>
+      simp only [encCellsCRLF, encCells, encCellCRLF_eq d c hc, List.append_assoc, List.cons_append]
+      rw [universal_append _ _ (encCell_no_cr d hd c hc)]
+      have hdl : universal (d.delim :: (encCellsCRLF d (c2 :: t2) ++ rest))
+          = d.delim :: universal (encCellsCRLF d (c2 :: t2) ++ rest) := by
+        have := universal_append [d.delim] (encCellsCRLF d (c2 :: t2) ++ rest) (by simpa using hd.dr.symm)
+        simpa using this
+      rw [hdl, ih (fun x hx => h x (List.mem_cons_of_mem _ hx))]
+
+theorem universal_recordCRLF (d : Dialect) (hd : WFD d) (r : Rec) (h : ∀ c ∈ r, '\r' ∉ c) (rest : List Char) :
+    universal (encRecordCRLF d r ++ rest) = encRecord d r ++ universal rest := by
+  match r, h with
+  | [], _ => simp [encRecordCRLF, encRecord, universal_crlf]
+  | [[]], _ =>
+    simp only [encRecordCRLF, encRecord, List.cons_append, List.nil_append]
+    have := universal_append [d.quote, d.quote] ('\r' :: '\n' :: rest) (by simpa using hd.qr.symm)
+    simp only [List.cons_append, List.nil_append] at this
+    rw [this, universal_crlf]
+  | [c :: cs], h => simpa [encRecordCRLF, encRecord] using universal_cellsCRLF d hd [c :: cs] h rest
+  | c :: c2 :: t, h => simpa [encRecordCRLF, encRecord] using universal_cellsCRLF d hd (c :: c2 :: t) h rest
+
+/-- one record written with the default line terminator is read back as that record -/
+theorem read_recordCRLF (d : Dialect) (hd : WFD d) (r : Rec) (h : ∀ c ∈ r, '\r' ∉ c ∧ c.length ≤ d.limit) :
+    Model.Csv.read d (encRecordCRLF d r) = some [r] := by
+  have h1 := read_render d hd [r] (by simpa using h)
+  unfold Model.Csv.read at h1 ⊢
+  have e : universal (encRecordCRLF d r) = render d [r] := by
+    have := universal_recordCRLF d hd r (fun c hc => (h c hc).1) []
+    simpa [render, universal] using this
+  rw [universal_id _ (render_no_cr d hd [r] (by simpa using fun c hc => (h c hc).1))] at h1
+  rw [e]
+  exact h1
+
+end Proofs.Csv
